@@ -89,7 +89,8 @@ namespace c14 {
       KIND("Capture", auto* cl = L.make_closure(*c.work); return c.I(*cl->captures.push_back(c.some_var(), Binding_mode::Reference));)
       KIND("Capture_specification::Default", return c.I(c.caps.default_capture(Binding_mode::Copy));)
       KIND("Capture_specification::Implicit_object", return c.I(c.caps.implicit_object_capture(Binding_mode::Reference));)
-      KIND("Capture_specification::Enclosing_local", auto& v = c.some_var(); return c.I(c.caps.enclosing_local_capture(v, Binding_mode::Copy));)
+      KIND("Capture_specification::Enclosing_local", auto& v = c.named_decl(k, 0, "declaration");
+           return c.I(c.caps.enclosing_local_capture(v, Binding_mode::Copy), {c.pseudo("declaration")});)
       KIND("Capture_specification::Binding", return c.I(c.caps.binding_capture(c.oid(), c.oe(), Binding_mode::Move));)
       KIND("Capture_specification::Expansion", return c.I(c.caps.expansion_capture(c.caps.binding_capture(c.oid(), c.oe(), Binding_mode::Copy)));)
       KIND("Substitution#elementary", auto& m = c.some_mapping(); return c.I(*L.make_elementary_substitution(*m.inputs.begin(), c.oe()));)
